@@ -39,7 +39,7 @@ def check(prop, w, tier, t0):
     if not r.ok:
         raise lib.Inconclusive("SqlBind model run failed:\n" + (r.error or ""))
     states, trans = r.distinct, r.generated
-    nprog = 1600 if tier == "quick" else 40000
+    nprog = 1600 if tier == "quick" else 200000
     nproc = min(lib.NCPU, max(1, nprog // 200))
     d = w.sub("rand")
 
